@@ -153,6 +153,8 @@ def finish(spec, modname, tier, seed, reports, bounded, t0, write_ledger=False):
             checker_errors.append('zero obligations for %s' % r['name'])
         if r['feasible_end_paths'] == 0 and not r['out_of_subset']:
             checker_errors.append('vacuity: no feasible path reaches the end of %s' % r['name'])
+        if r.get('has_ensures') and r.get('return_paths', 0) > 0 and r.get('live_return_paths', 1) == 0:
+            checker_errors.append('vacuity: every normally returning path of %s has a contradictory path condition' % r['name'])
         if r.get('has_ensures') and r.get('return_paths', 1) == 0 and not r['out_of_subset']:
             checker_errors.append('vacuity: no explored path of %s returns normally, its postcondition was never checked' % r['name'])
         for o in r['obligations']:
